@@ -2,6 +2,8 @@ package sym
 
 import (
 	"bufio"
+	"os"
+	"math/big"
 	"fmt"
 	"io"
 	"os/exec"
@@ -38,6 +40,8 @@ type Solver struct {
 	KeepTrace bool
 	timeoutMs int
 	store     *Store
+	IntMode   bool
+	encErr    bool
 	storeUses int
 	dead      bool
 }
@@ -66,7 +70,8 @@ func NewSolver(kind string, timeoutMs int) (*Solver, error) {
 	if err := cmd.Start(); err != nil {
 		return nil, err
 	}
-	s := &Solver{Kind: kind, cmd: cmd, in: in, out: bufio.NewReaderSize(out, 1<<16), defined: map[int]bool{}, decl: map[string]bool{}, timeoutMs: timeoutMs}
+	keep := os.Getenv("GOSYM_DUMP") != ""
+	s := &Solver{KeepTrace: keep, Kind: kind, cmd: cmd, in: in, out: bufio.NewReaderSize(out, 1<<16), defined: map[int]bool{}, decl: map[string]bool{}, timeoutMs: timeoutMs}
 	if kind == "cvc5" {
 		s.send("(set-logic ALL)")
 	} else {
@@ -123,6 +128,7 @@ func (s *Solver) EndPath() {
 	s.depth = 0
 	s.defined = map[int]bool{}
 	s.decl = map[string]bool{}
+	s.encErr = false
 }
 
 func sortOf(w int) string {
@@ -149,6 +155,9 @@ func quoteName(n string) string { return "|" + n + "|" }
 
 // ref returns the SMT name of a term, emitting definitions as needed.
 func (s *Solver) ref(t *Term) string {
+	if s.IntMode {
+		return s.refInt(t)
+	}
 	switch t.Op {
 	case OConst:
 		return constLit(t.Val, t.W)
@@ -198,7 +207,11 @@ func (s *Solver) ref(t *Term) string {
 
 // Assert adds t to the path scope.
 func (s *Solver) Assert(t *Term) {
+	nerr := len(s.Errors)
 	r := s.ref(t)
+	if len(s.Errors) > nerr {
+		s.encErr = true
+	}
 	s.send("(assert " + r + ")")
 }
 
@@ -210,6 +223,7 @@ func (s *Solver) Check(extra *Term, wantModel bool, vars []*Term) (Result, map[s
 	if s.dead {
 		return Unknown, nil
 	}
+	nerr := len(s.Errors)
 	var r string
 	if extra != nil {
 		r = s.ref(extra)
@@ -217,12 +231,21 @@ func (s *Solver) Check(extra *Term, wantModel bool, vars []*Term) (Result, map[s
 	for _, v := range vars {
 		s.ref(v)
 	}
+	if len(s.Errors) > nerr || s.encErr {
+		s.encErr = true
+		return Unknown, nil
+	}
 	s.send("(push 1)")
 	if extra != nil {
 		s.send("(assert " + r + ")")
 	}
 	s.send("(check-sat)")
 	res := s.readResult()
+	if res == Unknown && s.KeepTrace {
+		if d := os.Getenv("GOSYM_DUMP"); d != "" {
+			os.WriteFile(fmt.Sprintf("%s/unknown-%d.smt2", d, s.Queries), []byte(s.Script.String()), 0o644)
+		}
+	}
 	var model map[string]uint64
 	if res == Sat && wantModel && len(vars) > 0 {
 		model = s.getModel(vars)
@@ -365,6 +388,11 @@ func parseGetValue(txt string, vars []*Term, model map[string]uint64) {
 			model[name] = 1
 		case strings.HasPrefix(val, "false"):
 			model[name] = 0
+		case len(val) > 0 && val[0] >= '0' && val[0] <= '9':
+			bi, ok := new(big.Int).SetString(val, 10)
+			if ok {
+				model[name] = bi.Uint64()
+			}
 		case strings.HasPrefix(val, "(_ bv"):
 			f := strings.Fields(val[5:])
 			u, _ := strconv.ParseUint(f[0], 10, 64)
